@@ -295,6 +295,12 @@ def forall(dims, f):
 def forall_hyp(dims, f, pats=None):
     """Hypothesis-position universal quantifier (a real z3 ForAll); concrete: enumeration."""
     dims = list(dims)
+    if not any_sym(*dims):
+        n = 1
+        for d in dims:
+            n *= max(int(d), 0)
+        if n <= 4096:
+            return And(*[f(*idx) for idx in itertools.product(*[range(int(d)) for d in dims])])
     idx = [z3.Int('q%d' % i) for i in range(len(dims))]
     body = Implies(And(*[in_range(i, 0, d) for i, d in zip(idx, dims)]), f(*idx))
     if body is True:
